@@ -16,7 +16,7 @@ RULE = (
     "exponents; parsing the category, quantity-type and unit-name strings (' * ', one ' / ', '(x) ** n') recovers "
     "every factor with its exponent (numerator factors first); all 6322 simple (category, unit) pairs render exactly "
     "their registered category, type, unit and unit name; repr/str/GetFormatted of Scalar, Array, FixedArray and "
-    "FractionScalar show GetUnit(). A plain number divided by a derived amount has the same factors with negated exponents; products and quotients of units of different quantity types whose names coincide up to case still list two factors. Non-trivial = >= 2 denominator factors or a repeated quantity type; distinct key "
+    "FractionScalar show GetUnit(). A plain number divided by a derived amount has the same factors with negated exponents; products and quotients of units of different quantity types whose names coincide up to case still list two factors. Arrays without values (list, tuple, ndarray) and over an ndarray show the unit as well. Non-trivial = >= 2 denominator factors or a repeated quantity type; distinct key "
     "= the composing map."
 )
 ASSUMPTIONS = ["composing units that are themselves compound symbols are excluded by the statement", "no registered category or unit name contains ' * ', ' / ' or ' ** ' (asserted at start)"]
@@ -103,6 +103,8 @@ class Checker:
             fail("value_object_rendering_raises:%s" % type(e).__name__, case, "rendering a value object with unit %r raised %s: %s" % (unit, type(e).__name__, str(e)[:120]))
 
     def _check_wrappers(self, case, q, fail):
+        import numpy
+
         from barril.basic.fraction import FractionValue
         from barril.units import Array, FixedArray, FractionScalar, Scalar
 
@@ -122,6 +124,12 @@ class Checker:
             ("Scalar.GetFormatted(value_format)", s.GetFormatted(value_format="%.3f"), suffix),
             ("Array.repr", repr(a), unit),
             ("Array.str", str(a), suffix),
+            # (an Array without values, and one over an ndarray, show the unit as well)
+            ("Array.str(empty list)", str(Array.CreateWithQuantity(q, [])), suffix),
+            ("Array.str(empty tuple)", str(Array.CreateWithQuantity(q, ())), suffix),
+            ("Array.repr(empty list)", repr(Array.CreateWithQuantity(q, [])), unit),
+            ("Array.str(ndarray)", str(Array.CreateWithQuantity(q, numpy.array([1.0, 2.0]))), suffix),
+            ("Array.str(empty ndarray)", str(Array.CreateWithQuantity(q, numpy.array([]))), suffix),
             ("FixedArray.repr", repr(fa), unit),
             ("FixedArray.str", str(fa), suffix),
             ("FractionScalar.repr", repr(fs), "unit='%s'" % unit),
